@@ -64,7 +64,10 @@ Record config := mkConfig {
   itransfers : bool;                  (* does Collection.__setitem__ write the replaced value's id into the assigned object? *)
   gdel : bool;                        (* proposed C13-delattr-guard: __delattr__ (and Collection.remove) are assert_not_frozen *)
   gtuple : bool;                      (* proposed C13-tuple-prior-frozen: a TuplePrior is frozen / thawed with its owner *)
-  epochs : bool }.                    (* proposed C13-cache-modification-count: caches are dropped once any model was modified *)
+  epochs : bool;
+  trestore : bool }.                  (* 916e580: restoring state (pickle, copy, deepcopy, database) re-applies the owner's frozen flag
+                                         to its tuple priors; before it a copied TuplePrior kept its own stored flag and the
+                                         database form of a frozen tuple prior could not be rebuilt *)                    (* proposed C13-cache-modification-count: caches are dropped once any model was modified *)
 
 (* /repo since 5afd9f1: try/finally in DynamicRecursionCache.__call__ *)
 Definition wrapper_cleanup : bool := true.
@@ -79,6 +82,8 @@ Definition setitem_transfers : bool := false.
 Definition delattr_guarded : bool := true.
 Definition tuples_frozen : bool := true.
 Definition cache_counts_modifications : bool := true.
+(* /repo since 916e580 *)
+Definition tuple_flag_restored : bool := true.
 
 Definition FUEL : nat := 12.
 
@@ -700,10 +705,12 @@ Definition bump (cfg : config) (counts : bool) (c : M unit) : M unit :=
             end.
 
 (* ------------------------------------------------------------------ modification *)
-Definition frozen_pm (st : state) (v : value) : bool :=
+(* does assigning v as a component of a Model raise? (`value.label = namer(key)` hits the guard of a frozen
+   Model / Collection and, since b49160e, of a frozen TuplePrior) *)
+Definition frozen_pm (cfg : config) (st : state) (v : value) : bool :=
   match v with
   | VRef c => match get st c with
-              | Some cb => is_pm_kind (okind cb) && ofrozen cb
+              | Some cb => (is_pm_kind (okind cb) || gtuple cfg) && ofrozen cb
               | None => false end
   | _ => false
   end.
@@ -725,7 +732,7 @@ Definition op_set (cfg : config) (o : nat) (name : string) (v : value) : M unit 
           if ofrozen ob then raise EAssertion
           else
             (* value.label = namer(key): a frozen model refuses the `_label` assignment *)
-            fz <- gets (fun st => frozen_pm st v) ;;
+            fz <- gets (fun st => frozen_pm cfg st v) ;;
             if fz then raise EAssertion
             else if has_us name then
               (* self.tuple_prior_tuples: uncached, the target is not frozen here *)
@@ -787,18 +794,21 @@ Definition op_failwalk (cfg : config) (o : nat) : M unit :=
 (* ------------------------------------------------------------------ new / copy *)
 Definition new_obj (st : state) (k : kind) (a : list (string * value)) (ni : nat) : obj :=
   mkObj k a ni (1000 + List.length (heap st)) false [].
-Definition op_new (k : kind) (a : list (string * value)) (ni : nat) : M unit :=
+Definition op_new (cfg : config) (k : kind) (a : list (string * value)) (ni : nat) : M unit :=
   fun st =>
     match k with
     | KModel _ =>
-        if existsb (fun kv => frozen_pm st (snd kv)) a then (st, Exn EAssertion)
+        if existsb (fun kv => frozen_pm cfg st (snd kv)) a then (st, Exn EAssertion)
         else (mkState (heap st ++ [new_obj st k a ni]) (inflight st) (ptab st), Ok tt)
     | _ => (mkState (heap st ++ [new_obj st k a ni]) (inflight st) (ptab st), Ok tt)
     end.
 
-(* copy.deepcopy: preorder, memoised, attribute order; __getstate__ drops the cache and keeps
-   `_is_frozen`; Prior objects are copied too (new object, same id and limits) *)
-Record cstate := mkC { cheap : list obj; cmemo : list (nat * nat); cptab : list (nat * (Z * Z)); cpmemo : list (nat * nat) }.
+(* copy.deepcopy / pickle round trip: preorder, memoised, attribute order; __getstate__ drops the cache and keeps
+   `_is_frozen`; Prior objects are copied too (new object, same id and limits).  The database form
+   (db.Object.from_object(m)()) is the same walk without memo (shared children are duplicated) and without
+   any frozen flag.  `cbase` = size of the heap before the copy: only new objects are ever written. *)
+Record cstate := mkC { cheap : list obj; cmemo : list (nat * nat); cptab : list (nat * (Z * Z)); cpmemo : list (nat * nat);
+                       cbase : nat; cbad : bool }.
 
 Fixpoint copy_attrs (f : value -> cstate -> cstate * value) (l : list (string * value)) (cs : cstate)
   : cstate * list (string * value) :=
@@ -809,21 +819,54 @@ Fixpoint copy_attrs (f : value -> cstate -> cstate * value) (l : list (string * 
                    (cs2, (k, v') :: r')
   end.
 
-Fixpoint copy_val (n : nat) (v : value) (cs : cstate) : cstate * value :=
+(* AbstractModel.__setstate__ -> _set_tuple_priors_frozen(flag): the TuplePriors among the attributes get the
+   owner's flag (objects below `base` are never touched) *)
+(* str.isdigit() on attribute names *)
+Fixpoint all_digits (s : string) : bool :=
+  match s with
+  | EmptyString => true
+  | String c r => (Nat.leb 48 (Ascii.nat_of_ascii c) && Nat.leb (Ascii.nat_of_ascii c) 57) && all_digits r
+  end.
+Definition is_digits (s : string) : bool := match s with EmptyString => false | _ => all_digits s end.
+(* the database form does not store item_number: it is rebuilt as the number of positional ("0", "1", ...) children *)
+Definition db_nitems (ob : obj) : nat :=
+  match okind ob with
+  | KColl => List.length (filter (fun kv : string * value => is_digits (fst kv)) (oattrs ob))
+  | _ => onitems ob
+  end.
+
+Definition retuple_one (b : bool) (base : nat) (h : list obj) (kv : string * value) : list obj :=
+  match snd kv with
+  | VRef u =>
+      if Nat.leb base u then
+        match nth_error h u with
+        | Some ub => match okind ub with
+                     | KTuple => update h u (with_cache (with_frozen ub b) [])
+                     | _ => h
+                     end
+        | None => h
+        end
+      else h
+  | _ => h
+  end.
+Definition retuple (b : bool) (base : nat) (h : list obj) (attrs : list (string * value)) : list obj :=
+  fold_left (retuple_one b base) attrs h.
+
+Fixpoint copy_val (cfg : config) (db : bool) (n : nat) (v : value) (cs : cstate) : cstate * value :=
   match v with
   | VConst _ => (cs, v)
   | VPrior p =>
-      match nassoc p (cpmemo cs) with
+      match (if db then None else nassoc p (cpmemo cs)) with
       | Some p' => (cs, VPrior p')
       | None =>
           match nth_error (cptab cs) p with
           | None => (cs, v)
-          | Some e => (mkC (cheap cs) (cmemo cs) (cptab cs ++ [e]) ((p, List.length (cptab cs)) :: cpmemo cs),
+          | Some e => (mkC (cheap cs) (cmemo cs) (cptab cs ++ [e]) ((p, List.length (cptab cs)) :: cpmemo cs) (cbase cs) (cbad cs),
                        VPrior (List.length (cptab cs)))
           end
       end
   | VRef c =>
-      match nassoc c (cmemo cs) with
+      match (if db then None else nassoc c (cmemo cs)) with
       | Some c' => (cs, VRef c')
       | None =>
           match n with
@@ -833,17 +876,48 @@ Fixpoint copy_val (n : nat) (v : value) (cs : cstate) : cstate * value :=
               | None => (cs, v)
               | Some ob =>
                   let id := List.length (cheap cs) in
-                  let cs1 := mkC (cheap cs ++ [with_cache ob []]) ((c, id) :: cmemo cs) (cptab cs) (cpmemo cs) in
-                  let (cs2, a') := copy_attrs (copy_val n') (oattrs ob) cs1 in
-                  (mkC (update (cheap cs2) id (with_cache (with_attrs ob a') [])) (cmemo cs2) (cptab cs2) (cpmemo cs2), VRef id)
+                  let nb := if db then with_nitems (with_frozen (with_cache ob []) false) (db_nitems ob) else with_cache ob [] in
+                  let bad := cbad cs || (db && ofrozen ob && negb (is_pm_kind (okind ob))) in
+                  let cs1 := mkC (cheap cs ++ [nb]) ((c, id) :: cmemo cs) (cptab cs) (cpmemo cs) (cbase cs) bad in
+                  let (cs2, a') := copy_attrs (copy_val cfg db n') (oattrs ob) cs1 in
+                  let fin := with_attrs nb a' in
+                  let h3 := update (cheap cs2) id fin in
+                  let h4 := if gtuple cfg && trestore cfg && is_pm_kind (okind ob)
+                            then retuple (ofrozen fin) (cbase cs2) h3 a' else h3 in
+                  (mkC h4 (cmemo cs2) (cptab cs2) (cpmemo cs2) (cbase cs2) (cbad cs2), VRef id)
               end
           end
       end
   end.
 
-Definition op_copy (o : nat) : M unit :=
-  fun st => let (cs, _) := copy_val FUEL (VRef o) (mkC (heap st) [] (ptab st) []) in
+Definition copy_start (st : state) : cstate := mkC (heap st) [] (ptab st) [] (List.length (heap st)) false.
+
+Definition op_copy (cfg : config) (o : nat) : M unit :=
+  fun st => let (cs, _) := copy_val cfg false FUEL (VRef o) (copy_start st) in
             (mkState (cheap cs) (inflight st) (cptab cs), Ok tt).
+
+(* the other ways of restoring a model from stored state *)
+Inductive rmode := RShallow     (* copy.copy: a new object sharing every component *)
+                 | RDatabase.   (* db.Object.from_object(m)(): rebuilt from the database form *)
+
+Definition op_restore (cfg : config) (o : nat) (m : rmode) : M unit :=
+  fun st =>
+    match m with
+    | RShallow =>
+        match get st o with
+        | None => (st, Exn EAttribute)
+        | Some ob =>
+            let h1 := heap st ++ [with_cache ob []] in
+            let h2 := if gtuple cfg && trestore cfg && is_pm_kind (okind ob)
+                      then retuple (ofrozen ob) 0 h1 (oattrs ob) else h1 in
+            (mkState h2 (inflight st) (ptab st), Ok tt)
+        end
+    | RDatabase =>
+        let (cs, _) := copy_val cfg true FUEL (VRef o) (copy_start st) in
+        (* before 916e580 the stored `_is_frozen = True` of a tuple prior was restored before its members *)
+        if gtuple cfg && negb (trestore cfg) && cbad cs then (st, Exn EAssertion)
+        else (mkState (cheap cs) (inflight st) (cptab cs), Ok tt)
+    end.
 
 (* Collection.__setitem__: `obj.id = getattr(self, str(key)).id` -- the id of whatever sat under
    the key is written INTO the assigned object (a Prior shared with other models included) *)
@@ -872,7 +946,7 @@ Definition op_setitem (cfg : config) (o : nat) (key : string) (v : value) : M un
             _ <- match (if itransfers cfg then old else None), v with
                  | Some i, VPrior p => set_pid p i
                  | Some i, VRef c =>
-                     fz <- gets (fun st => frozen_pm st v) ;;
+                     fz <- gets (fun st => frozen_pm cfg st v) ;;
                      if fz then raise EAssertion else modify c (fun cb => with_oidn cb i)
                  | _, _ => ret tt
                  end ;;
@@ -938,6 +1012,7 @@ Inductive op :=
 | OAppend (o : nat) (v : value)
 | ODel (o : nat) (name : string)
 | OCopy (o : nat)
+| ORestore (o : nat) (m : rmode)
 | OFailWalk (o : nat).
 
 Definition unit_ans (c : M unit) : M answer := _ <- c ;; ret AUnit.
@@ -948,7 +1023,7 @@ Definition counted_target (cfg : config) (st : state) (o : nat) : bool :=
 
 Definition step (cfg : config) (x : op) : M answer :=
   match x with
-  | ONew k a ni => unit_ans (bump cfg true (op_new k a ni))
+  | ONew k a ni => unit_ans (bump cfg true (op_new cfg k a ni))
   | OQuery o q => run_query cfg o q
   | OFreeze o => unit_ans (freeze cfg FUEL o)
   | OUnfreeze o => unit_ans (unfreeze cfg FUEL o)
@@ -958,7 +1033,8 @@ Definition step (cfg : config) (x : op) : M answer :=
   | OAppend o v => unit_ans (bump cfg true (op_append o v))
   | ODel o name => unit_ans (fun st => bump cfg (match get st o with Some ob => del_guarded cfg (okind ob) | None => false end)
                                             (op_del cfg o name) st)
-  | OCopy o => unit_ans (bump cfg true (op_copy o))
+  | OCopy o => unit_ans (bump cfg true (op_copy cfg o))
+  | ORestore o m => unit_ans (bump cfg true (op_restore cfg o m))
   | OFailWalk o => unit_ans (op_failwalk cfg o)
   end.
 
@@ -1017,7 +1093,7 @@ Definition check_case (c : case) : bool :=
   match c with
   | Case cl pr ops outs fz =>
       let cfg := mkConfig cl pr wrapper_cleanup derive_thaws setitem_transfers delattr_guarded tuples_frozen
-                          cache_counts_modifications in
+                          cache_counts_modifications tuple_flag_restored in
       let (st, got) := run cfg ops (init cfg) in
       list_eqb outcome_eqb got outs && list_eqb Bool.eqb (map ofrozen (heap st)) fz
   end.
